@@ -5,6 +5,9 @@ import (
 	"math/rand/v2"
 	"path/filepath"
 	"runtime/debug"
+	"strings"
+	"sync"
+	"sync/atomic"
 	"testing"
 
 	"github.com/cockroachdb/pebble/sstable"
@@ -88,6 +91,90 @@ func fullScript(x *Exec, tab *Table) []Ev {
 	return roundTrip(script)
 }
 
+// retryScript is the "operations continue on the same iterator after an error"
+// script (spec/InternalIter/BlockRetry.tla): ONE iterator is used for every
+// (anchor, seek) pair, the anchor positioning it in some block (first, last or
+// a middle one) and the seek being issued, retried, retried with
+// TrySeekUsingNext where the contract allows it, followed by a relative step,
+// retried again, and retried once more after the iterator was re-bound with
+// SetBounds.  On the pristine table (the leader, which records the expected
+// outcome sets) the repetitions are redundant; on a corrupted table whichever
+// call first needs the unreadable block reports the error and all the later
+// calls of the script are calls made after an error.  Because consecutive
+// pairs share the iterator, "seek elsewhere and back" is part of it as well.
+func retryScript(x *Exec, tab *Table) []Ev {
+	u := x.U
+	var script []Ev
+	do := func(e Ev) {
+		script = append(script, e)
+		x.Step(e)
+	}
+	it := func(o string, k, f int) []int {
+		e := Ev{"op": "it", "h": 1, "o": o, "k": k, "f": f}
+		script = append(script, e)
+		res := x.ptOp(1, o, k, f)
+		x.emit(Ev{"op": "it", "h": 1, "o": o, "k": k, "f": f, "res": res})
+		return res
+	}
+	r := u.R()
+	type call struct {
+		o string
+		k int
+	}
+	anchors := []call{{"first", 0}, {"last", 0}, {"seekge", r / 2}, {"seeklt", r/2 + 1}}
+	var seeks []call
+	for k := 0; k <= r; k++ {
+		seeks = append(seeks, call{"seekge", k}, call{"seeklt", k})
+		if k < r {
+			seeks = append(seeks, call{"seekprefixge", k})
+		}
+	}
+	do(Ev{"op": "open", "h": 1, "t": "pt", "lo": 0, "hi": r})
+	for ai, a := range anchors {
+		for si, sk := range seeks {
+			if (ai+si)%2 == 1 && ai >= 2 {
+				continue // the two middle anchors share the seeks between them
+			}
+			it(a.o, a.k, 0)
+			res := it(sk.o, sk.k, 0)
+			at := len(res) == 4 && res[0] >= 0
+			inPfx := at && (sk.o != "seekprefixge" || res[0]/(u.S+1) == sk.k/(u.S+1))
+			it(sk.o, sk.k, 0) // the same call again
+			if sk.o != "seeklt" && inPfx {
+				it(sk.o, sk.k, 1) // and with TrySeekUsingNext: nothing moved the iterator since
+			}
+			// a relative step where the contract has one, then the call again
+			switch {
+			case sk.o == "seekprefixge" && inPfx, sk.o == "seekge" && at, sk.o == "seeklt" && len(res) == 0:
+				it("next", 0, 0)
+			case sk.o == "seeklt" && at, sk.o == "seekge" && len(res) == 0:
+				it("prev", 0, 0)
+			}
+			it(sk.o, sk.k, 0)
+			// re-bind to a window around the key, call again, widen again
+			lo, hi := sk.k-1, sk.k+2
+			if lo < 0 {
+				lo = 0
+			}
+			if hi > r {
+				hi = r
+			}
+			if (ai+si)%3 == 0 {
+				lo, hi = 0, r
+			}
+			do(Ev{"op": "setb", "h": 1, "lo": lo, "hi": hi})
+			if !(sk.o == "seekprefixge" && sk.k > hi) {
+				it(sk.o, sk.k, 0)
+			}
+			if lo != 0 || hi != r {
+				do(Ev{"op": "setb", "h": 1, "lo": 0, "hi": r})
+			}
+		}
+	}
+	do(Ev{"op": "close", "h": 1})
+	return roundTrip(script)
+}
+
 var patterns = []string{"flip", "zero", "ff", "swap"}
 
 func mutate(data []byte, off int, pat string, bit uint) []byte {
@@ -107,21 +194,89 @@ func mutate(data []byte, off int, pat string, bit uint) []byte {
 	return d
 }
 
+// corruption is one altered copy of a table: byte offset and pattern.
+type corruption struct {
+	off int
+	pat string
+}
+
+// runCorruptions re-runs script on every altered copy of data (in parallel: every run owns
+// its reader and iterators) and returns the corrupt{} events in the order of cs.
+func runCorruptions(u *Univ, vc Vals, cfg WCfg, data []byte, script []Ev, cs []corruption, seed int, workers int) (evs []Ev, nOpenErr, nPanic, nAfter int) {
+	evs = make([]Ev, len(cs))
+	type cnt struct{ openErr, panics, after int }
+	cnts := make([]cnt, len(cs))
+	parallelDo(len(cs), workers, func(i int) {
+		c := cs[i]
+		d := mutate(data, c.off, c.pat, uint((c.off+seed)%8))
+		y := &Exec{U: u, VC: vc, Cfg: cfg, Collect: true}
+		y.reset()
+		if err := y.OpenBytes(d); err != nil {
+			st := "err"
+			if strings.HasPrefix(err.Error(), "panic:") {
+				st = "panic"
+				cnts[i].panics++
+			}
+			cnts[i].openErr++
+			evs[i] = Ev{"op": "corrupt", "off": c.off, "pat": c.pat, "open": st, "res": []any{}}
+			return
+		}
+		for _, e := range script {
+			y.Step(e)
+		}
+		y.CloseAll()
+		cnts[i].panics += len(y.Panics)
+		cnts[i].after = afterError(y.Res)
+		evs[i] = Ev{"op": "corrupt", "off": c.off, "pat": c.pat, "open": "ok", "res": y.Res}
+	})
+	for _, c := range cnts {
+		nOpenErr, nPanic, nAfter = nOpenErr+c.openErr, nPanic+c.panics, nAfter+c.after
+	}
+	return
+}
+
+// parallelDo runs fn(0..n-1) on a few goroutines.  Unchecked corrupted bytes can send the
+// block decoders' pointer arithmetic off the buffer: such faults are made panics (recorded,
+// rejected by the spec) instead of killing the driver; the setting is per goroutine.
+func parallelDo(n, workers int, fn func(i int)) {
+	if workers < 1 {
+		workers = 1
+	}
+	var next atomic.Int64
+	var wg sync.WaitGroup
+	for w := 0; w < workers; w++ {
+		wg.Add(1)
+		go func() {
+			defer wg.Done()
+			debug.SetPanicOnFault(true)
+			for {
+				i := int(next.Add(1)) - 1
+				if i >= n {
+					return
+				}
+				fn(i)
+			}
+		}()
+	}
+	wg.Wait()
+}
+
 // TestC27: for each format a few small tables; every byte offset x 4 corruption
-// patterns; reopen; rerun the full C25 script; log every step's result.
+// patterns; reopen; rerun the full C25 script; log every step's result.  Then, for
+// tables with several data blocks, the retry script (calls that continue on the
+// same iterator after an error) over a sample of the offsets, at the sstable
+// iterators and through a pebble.Iterator.
 func TestC27(t *testing.T) {
 	out := envStr("VERIF_OUT", "")
 	if out == "" {
 		t.Skip("VERIF_OUT not set")
 	}
-	// unchecked corrupted bytes can send the block decoders' pointer arithmetic
-	// off the buffer: make such faults panics (recorded, rejected by the spec)
-	// instead of killing the driver
 	defer debug.SetPanicOnFault(debug.SetPanicOnFault(true))
 	seed := uint64(envInt("VERIF_SEED", 1))
 	p, s := envInt("VERIF_P", 3), envInt("VERIF_S", 2)
 	nt := envInt("VERIF_TABLES", 1)
 	stride := envInt("VERIF_STRIDE", 1)
+	workers := envInt("VERIF_DRV_WORKERS", 4)
 	var formats []sstable.TableFormat
 	for _, f := range AllFormats() {
 		for _, w := range splitList(envStr("VERIF_FORMATS", "")) {
@@ -135,6 +290,25 @@ func TestC27(t *testing.T) {
 	}
 	rng := rand.New(rand.NewPCG(seed, 0xC27))
 	nCorrupt, nOpenErr, nPanic, nSame, nEvents, nFiles, nBytes, nSkipped := 0, 0, 0, 0, 0, 0, 0, 0
+	nRetry, rstride := envInt("VERIF_RETRY_TABLES", 2), envInt("VERIF_RETRY_STRIDE", 3)
+	nRetryRuns, nAfterErr := 0, 0
+	// Formats before Pebblev6 end in the RocksDB-style footer, which carries no
+	// checksum (the checked footer is what Pebblev6 added): an altered version
+	// field makes the reader decode the blocks as another format.  C27 speaks of
+	// "current formats"; the unchecked legacy footer is excluded unless asked for.
+	endOf := func(f sstable.TableFormat, data []byte) int {
+		if f < sstable.TableFormatPebblev6 && envInt("VERIF_LEGACY_FOOTER", 0) == 0 {
+			return len(data) - 53
+		}
+		return len(data)
+	}
+	run := func(tr *Trace, u *Univ, vc Vals, cfg WCfg, data []byte, script []Ev, cs []corruption) {
+		evs, oe, pn, af := runCorruptions(u, vc, cfg, data, script, cs, int(seed), workers)
+		for _, e := range evs {
+			tr.Emit(e)
+		}
+		nCorrupt, nOpenErr, nPanic, nAfterErr = nCorrupt+len(cs), nOpenErr+oe, nPanic+pn, nAfterErr+af
+	}
 	for _, f := range formats {
 		for ti := 0; ti < nt; ti++ {
 			cfg := WCfg{Format: f, BlockSize: []int{24, 48, 4096}[(ti+int(seed))%3], IndexSize: []int{16, 4096}[(ti+int(seed)/3)%2],
@@ -161,47 +335,101 @@ func TestC27(t *testing.T) {
 			script := fullScript(x, tab)
 			x.CloseAll()
 			nBytes += len(data)
-			// Formats before Pebblev6 end in the RocksDB-style footer, which carries no
-			// checksum (the checked footer is what Pebblev6 added): an altered version
-			// field makes the reader decode the blocks as another format.  C27 speaks of
-			// "current formats"; the unchecked legacy footer is excluded unless asked for.
-			end := len(data)
-			if f < sstable.TableFormatPebblev6 && envInt("VERIF_LEGACY_FOOTER", 0) == 0 {
-				end -= 53
-				nSkipped += 53
-			}
+			end := endOf(f, data)
+			nSkipped += len(data) - end
+			var cs []corruption
 			for off := 0; off < end; off += stride {
 				for _, pat := range patterns {
-					d := mutate(data, off, pat, uint((off+int(seed))%8))
-					if string(d) == string(data) {
+					if string(mutate(data, off, pat, uint((off+int(seed))%8))) == string(data) {
 						nSame++
 						continue
 					}
-					nCorrupt++
-					y := &Exec{U: x.U, VC: x.VC, Cfg: cfg, Collect: true}
-					y.reset()
-					if err := y.OpenBytes(d); err != nil {
-						st := "err"
-						if len(err.Error()) > 6 && err.Error()[:6] == "panic:" {
-							st = "panic"
-							nPanic++
-						}
-						nOpenErr++
-						tr.Emit(Ev{"op": "corrupt", "off": off, "pat": pat, "open": st, "res": []any{}})
-						continue
-					}
-					for _, e := range script {
-						y.Step(e)
-					}
-					y.CloseAll()
-					nPanic += len(y.Panics)
-					tr.Emit(Ev{"op": "corrupt", "off": off, "pat": pat, "open": "ok", "res": y.Res})
+					cs = append(cs, corruption{off, pat})
 				}
 			}
+			run(tr, x.U, x.VC, cfg, data, script, cs)
+			nEvents += tr.N
+			must(tr.Close())
+		}
+		// operations continuing on the same iterator after an error: tables with several data
+		// blocks (single-level and two-level index), the retry script, a sample of the offsets
+		for ri := 0; ri < nRetry; ri++ {
+			cfg := WCfg{Format: f, BlockSize: []int{40, 24, 72}[(ri/2+int(seed))%3], IndexSize: []int{4096, 16}[ri%2],
+				Restart: []int{16, 2}[(ri+int(seed))%2], Compress: []string{"none", "snappy"}[(ri/2)%2],
+				Filter: "bloom10", UseFilter: ri%4 < 2, Shape: []string{"short", "mixed"}[(ri/2+int(seed))%2],
+				ValSizes: []int{0, 2, 9, 30}, NoValBlk: ri%2 == 0}
+			cfg.Name = fmt.Sprintf("retry/%s/bs%d/ibs%d/%s", f, cfg.BlockSize, cfg.IndexSize, cfg.Compress)
+			u := NewUniv(p, s, cfg.Shape)
+			vc := Vals{Sizes: cfg.ValSizes}
+			var tab *Table
+			var data []byte
+			for try := 0; ; try++ {
+				tab = GenTable(rng, p, s, 2, 12, false, false)
+				if len(tab.Pts) < 6 {
+					continue
+				}
+				var err error
+				data, err = Build(u, vc, cfg, tab)
+				must(err)
+				if n, err := dataBlocks(data, cfg); err == nil && (n >= 3 || try > 50) {
+					break
+				}
+			}
+			tr, err := NewTrace(filepath.Join(out, fmt.Sprintf("c27-%d-%02d-r%d.ndjson", seed, int(f), ri)))
+			must(err)
+			nFiles++
+			x := &Exec{U: u, VC: vc, Cfg: cfg, T: tr}
+			x.reset()
+			must(x.OpenBytes(data))
+			x.Tab = tab
+			tr.Emit(tab.Event(cfg.Name))
+			script := retryScript(x, tab)
+			x.CloseAll()
+			nBytes += len(data)
+			var cs []corruption
+			for off := (int(seed) + ri) % rstride; off < endOf(f, data); off += rstride {
+				pat := patterns[(off/rstride+int(seed))%len(patterns)]
+				if string(mutate(data, off, pat, uint((off+int(seed))%8))) == string(data) {
+					nSame++
+					continue
+				}
+				cs = append(cs, corruption{off, pat})
+			}
+			nRetryRuns += len(cs)
+			run(tr, u, vc, cfg, data, script, cs)
 			nEvents += tr.N
 			must(tr.Close())
 		}
 	}
-	fmt.Printf("DRIVER-DONE traces=%d events=%d corruptions=%d openerr=%d panics=%d unchanged=%d bytes=%d legacyfooterbytes=%d\n",
-		nFiles, nEvents, nCorrupt, nOpenErr, nPanic, nSame, nBytes, nSkipped)
+	// the same through a pebble.Iterator over a DB holding the corrupted table
+	dbFiles, dbEvents, dbCorrupt, dbOpenErr, dbPanic, dbAfter := c27DB(out, seed, p, s, envInt("VERIF_DB_TABLES", 2), envInt("VERIF_DB_STRIDE", 3), workers)
+	nFiles, nEvents, nCorrupt, nOpenErr, nPanic, nAfterErr = nFiles+dbFiles, nEvents+dbEvents, nCorrupt+dbCorrupt, nOpenErr+dbOpenErr, nPanic+dbPanic, nAfterErr+dbAfter
+	fmt.Printf("DRIVER-DONE traces=%d events=%d corruptions=%d openerr=%d panics=%d unchanged=%d bytes=%d legacyfooterbytes=%d retryruns=%d dbruns=%d resultsaftererror=%d\n",
+		nFiles, nEvents, nCorrupt, nOpenErr, nPanic, nSame, nBytes, nSkipped, nRetryRuns, dbCorrupt, nAfterErr)
+}
+
+// dataBlocks returns the number of data blocks of a table (generator side: the retry tables
+// are drawn until they have several).
+func dataBlocks(data []byte, cfg WCfg) (int, error) {
+	r, err := sstable.NewMemReader(data, cfg.ReaderOptions())
+	if err != nil {
+		return 0, err
+	}
+	defer r.Close()
+	l, err := r.Layout()
+	if err != nil {
+		return 0, err
+	}
+	return len(l.Data), nil
+}
+
+// afterError counts the results that follow the first error of a run (diagnostic: how many
+// calls were made on iterators that had already reported an error).
+func afterError(res []any) int {
+	for i, r := range res {
+		if v, ok := r.([]int); ok && len(v) == 1 && v[0] == -1 {
+			return len(res) - i - 1
+		}
+	}
+	return 0
 }
